@@ -781,6 +781,30 @@ func c18Case(c *core.Case) {
 		return
 	}
 	spec := g.specForW([]*gen.Body{wbody, shape}, kinds)
+	if unkGroup != nil && topLevelOnly(tree, unkGroup) && g.labelCounts[unkGroup.Type] >= 1 && gen.Chance(r, 0.6) {
+		// a map-of-blocks spec (one map level per label) for the block type whose
+		// for_each is unknown; it only takes attributes of concrete types
+		onlyAttrs := true
+		for _, l := range unkGroup.Labels {
+			// (labels computed from the unknown iterator are an error; the block is
+			// then absent, and an absent multi-label block type is C08's known finding)
+			if l.Kind != gen.KStr {
+				onlyAttrs = false
+			}
+		}
+		nested := hcldec.ObjectSpec{}
+		for _, it := range unkGroup.Content.Items {
+			if it.Attr == nil {
+				onlyAttrs = false
+				break
+			}
+			nested[it.Attr.Name] = &hcldec.AttrSpec{Name: it.Attr.Name, Type: cty.String}
+		}
+		if onlyAttrs {
+			spec.(hcldec.ObjectSpec)["blk_"+unkGroup.Type] = &hcldec.BlockMapSpec{TypeName: unkGroup.Type, LabelNames: labelNames(g.labelCounts[unkGroup.Type]), Nested: nested}
+			kinds["map"]++
+		}
+	}
 	c.SetInput(fmt.Sprintf("DYNAMIC:\n%s\nWRITTEN OUT:\n%s\nSPEC BLOCK KINDS: %v\nSCOPE: %s", dsrc, wsrc, kinds, scopeStr(sc)))
 	df, dd := hclsyntax.ParseConfig([]byte(dsrc), "d.hcl", hcl.InitialPos)
 	wf, wd := hclsyntax.ParseConfig([]byte(wsrc), "w.hcl", hcl.InitialPos)
